@@ -89,6 +89,17 @@ func edgeScalars() []sc {
 		}
 		put("pattern", fmt.Sprintf("32x%02x", b), new(big.Int).SetBytes(buf))
 	}
+	// 32-byte values at and above n that share n's (and p's) top limb 0xfffffffeffffffff: a reduction that looks at
+	// the top limb only leaves the whole range [n, n+2^127..) alone. n+small, p+-3 and 2^256-1 are listed above;
+	// here the sparse offsets inside the range, its last value and the first one whose top limb is larger
+	for _, k := range []int{64, 65, 96, 126, 127} {
+		put("above-n/top-limb", fmt.Sprintf("n+2^%d", k), add(ec.N, pow2(k)))
+	}
+	topEnd := add(lsh(new(big.Int).Rsh(ec.N, 192), 192), sub(pow2(192), one)) // top limb of n, all ones below
+	put("above-n/top-limb", "n.top|ff..ff", topEnd)
+	put("above-n/top-limb", "n.top|ff..ff+1", add(topEnd, one))
+	put("above-n/top-limb", "p+2^64", add(ec.P, pow2(64)))
+	put("above-n/top-limb", "p+2^95", add(ec.P, pow2(95)))
 	return out
 }
 
